@@ -8,6 +8,7 @@ import (
 	"time"
 
 	"verif/harness/evid"
+	"verif/harness/tla"
 	"verif/harness/tok"
 	"verif/harness/wproto"
 )
@@ -73,6 +74,8 @@ func checkC06(r *evid.Run) {
 	for _, cfg := range cfgs {
 		checkC06Model(r, pool, cfg, timeout)
 	}
+	// Mkdir under every option sequence (Options.tla): the last extension list and target win, nothing else matters
+	checkOptions(r, "rule", []int{0}, func(s *optState) bool { return s.Op == "mkdir" && tla.S(s.Rule["k"]) == "mkdir" })
 	r.Set("exhaustive", true)
 	r.Set("rule", "every forest up to the bound over plain names (incl. a dotted name and an over-long name) x extension lists (empty, suffix, whole name, overlapping, a directory-looking name) x initial targets (present, missing, a regular file) x 0-1 environment step (a root pre-created as file or directory) x up to 2 mkdir calls (so: mkdir twice) x {From-Markdown, From-Root, deprecated aliases}; each replayed in a jail with full before/after snapshots; non-trivial = at least 2 items")
 }
@@ -196,6 +199,8 @@ func checkC07(r *evid.Run) {
 			}
 		}
 	})
+	// a tree with a name that is no path element, under every option sequence (Options.tla): rejected all the same
+	checkOptions(r, "rule", []int{1}, func(s *optState) bool { return s.Op == "mkdir" })
 	r.Set("exhaustive", true)
 	r.Set("rule", "every forest up to the bound over {a, '.', '..', 'a/b', '/a', '../a'} at every node position x {From-Markdown, From-Root} x {dry-run, real} x {simple, massive} x 2 extension lists x {target present, missing}; the jail sits three directories below a scratch root that is snapshotted as a whole; non-trivial = forest with a hostile name")
 	r.Assume("checks run as root: permissions are not relied on as a guard; an escape of up to three levels is visible")
@@ -276,6 +281,8 @@ func checkC08(r *evid.Run) {
 			}
 		}
 	})
+	// Verify under every option sequence (Options.tla): the last target and strictness win, nothing else matters
+	checkOptions(r, "rule", []int{0}, func(s *optState) bool { return s.Op == "verify" })
 	r.Set("exhaustive", true)
 	r.Set("rule", "every forest up to the bound x directory states reached by Mkdir of the same tree and/or 0-2 environment steps (any node path or an extra entry at any depth, as file or directory) x {strict, non-strict} x {From-Markdown, From-Root (single root)}; the error text is parsed into the two documented lists and compared as sets; non-trivial = more than 3 entries in the directory")
 }
@@ -374,6 +381,8 @@ func checkC09(r *evid.Run) {
 			}
 		}
 	})
+	// dry run under every option sequence (Options.tla): dry run wins over an encoder; report and name validation as without
+	checkOptions(r, "rule", []int{0, 1}, func(s *optState) bool { return tla.S(s.Rule["k"]) == "report" })
 	r.Set("exhaustive", true)
 	r.Set("rule", "every forest up to the bound (hostile names included) x 5 extension lists x {Mkdir-from-Markdown+dry-run, Mkdir-from-root+dry-run, Output+dry-run} x {simple, massive} x {target present, missing}; jail snapshot before/after; report compared with the real plain output per root + the specification's counts; counts compared with what a real Mkdir creates; non-trivial = at least 2 items")
 }
